@@ -224,6 +224,7 @@ Section L.
   Definition covered (o : cop) : bool :=
     match o with
     | CSet _ _ | CAppend _ _ | CSetIdx _ _ _ | CInsert _ _ _ | CValidate _ => true
+    | CSetObj _ _ | CAppendObj _ _ | CSetIdxObj _ _ _ | CInsertObj _ _ _ => true    (* the same routes, given a configuration object *)
     | CLoads (Ok _) => false          (* a document that parses is a load_tree: it may fail half way *)
     | CLoads _ => true                (* a document load that fails to parse *)
     | CLoad _ _ | CReset _ => false
@@ -263,6 +264,28 @@ Section L.
       destruct (make_item w (path_join pre k) (N.of_nat (length l)) vs' fs' x) as [[w1 it] o1] eqn:E.
       destruct it as [it|]; [|inversion H; subst; reflexivity].
       destruct o1; try (inversion H; subst; reflexivity). inversion H; subst. congruence.
+    - (* CSetObj *)
+      destruct (fget F k fs) as [[f|d1 v1 f1|req vs' fs']|].
+      + destruct (lvalidate f cfg_object); inversion H; subst; reflexivity.
+      + inversion H; subst. congruence.
+      + inversion H; subst. reflexivity.
+      + destruct dyn; inversion H; subst; reflexivity.
+    - (* CAppendObj *)
+      destruct (fget F k fs) as [[f|d1 v1 f1|req vs' fs']|]; try (inversion H; subst; reflexivity).
+      destruct (dget k (c_data c)) as [[v|c0|l]|]; try (inversion H; subst; reflexivity).
+      destruct (obj_item F lvalidate lflag vrun (path_join pre k) (N.of_nat (length l)) vs' fs' src);
+        inversion H; subst; try reflexivity. congruence.
+    - (* CSetIdxObj *)
+      destruct (fget F k fs) as [[f|d1 v1 f1|req vs' fs']|]; try (inversion H; subst; reflexivity).
+      destruct (dget k (c_data c)) as [[v|c0|l]|]; try (inversion H; subst; reflexivity).
+      destruct (obj_item F lvalidate lflag vrun (path_join pre k) (N.of_nat (length l)) vs' fs' src);
+        try (inversion H; subst; reflexivity).
+      destruct (i <? length l)%nat; inversion H; subst; try reflexivity. congruence.
+    - (* CInsertObj *)
+      destruct (fget F k fs) as [[f|d1 v1 f1|req vs' fs']|]; try (inversion H; subst; reflexivity).
+      destruct (dget k (c_data c)) as [[v|c0|l]|]; try (inversion H; subst; reflexivity).
+      destruct (obj_item F lvalidate lflag vrun (path_join pre k) (N.of_nat (length l)) vs' fs' src);
+        inversion H; subst; try reflexivity. congruence.
   Qed.
 
   Theorem reject_unchanged : forall ps o w pre c dyn vs fs w' c' oc1,
@@ -281,6 +304,26 @@ Section L.
       destruct (at_path ps w (path_index (path_join pre k) (N.of_nat i)) it false vs' fs' o) as [[w1 it'] o1] eqn:E.
       inversion H; subst. apply IH in E; auto. subst it'.
       destruct c as [i0 d df dy]. cbn [c_data] in Eg. rewrite set_nth_cfg_same by exact En. rewrite dset_same by exact Eg. reflexivity.
+  Qed.
+
+  (* the same, spelled out for configuration objects: an object that is refused -- as an assignment by attribute, dotted
+     path or constructor keyword, or as an item appended to / assigned into / inserted into a list of configurations --
+     leaves the configuration it was offered to exactly as it was, wherever in the tree that configuration sits *)
+  Definition is_obj_op (o : cop) : bool :=
+    match o with CSetObj _ _ | CAppendObj _ _ | CSetIdxObj _ _ _ | CInsertObj _ _ _ => true | _ => false end.
+  Lemma obj_op_covered : forall o, is_obj_op o = true -> covered o = true.
+  Proof. intros o H. destruct o; try discriminate; reflexivity. Qed.
+  Theorem reject_obj_unchanged : forall ps o w pre c dyn vs fs w' c' oc1,
+    is_obj_op o = true -> at_path ps w pre c dyn vs fs o = (w', c', oc1) -> oc1 <> OOk -> c' = c.
+  Proof. intros. eapply reject_unchanged; eauto. apply obj_op_covered. assumption. Qed.
+  (* ... also when the object is built by the model on the side (Config.detached), whatever was done to it there *)
+  Theorem reject_built_obj_unchanged : forall ps r k sdyn svs sfs dops w pre c dyn vs fs w' c' oc1,
+    at_path_x F lvalidate lto_python ldefault lcallable lflag vrun ps w pre c dyn vs fs (XObj r k sdyn svs sfs dops) = (w', c', oc1) ->
+    oc1 <> OOk -> c' = c.
+  Proof.
+    intros ps r k sdyn svs sfs dops w pre c dyn vs fs w' c' oc1 H Ho. unfold at_path_x, resolve in H.
+    destruct (detached F lvalidate lto_python ldefault lcallable lflag vrun w sdyn svs sfs dops) as [w1 src].
+    eapply reject_unchanged; [| exact H | exact Ho]. destruct r; reflexivity.
   Qed.
 
   (* ---------------------------------------------------------------------------------------- *)
@@ -408,12 +451,13 @@ Section L.
   Definition no_load (o : cop) : bool := match o with CLoad _ _ | CLoads _ => false | _ => true end.
   Definition declared_target (fs : list (str * node F)) (o : cop) : bool :=
     match o with
-    | CSet k _ | CReset k => match fget F k fs with Some _ => true | None => false end
+    | CSet k _ | CReset k | CSetObj k _ => match fget F k fs with Some _ => true | None => false end
     | _ => true
     end.
   Definition mark_effect (o : cop) (r : oc) (k : str) (b : bool) : bool :=
     match o, r with
     | CSet k' _, OOk => b || str_eqb k k'
+    | CSetObj k' _, OOk => b || str_eqb k k'          (* an accepted configuration object counts as an assignment *)
     | CReset k', OOk => b && negb (str_eqb k k')
     | _, _ => b
     end.
@@ -459,6 +503,52 @@ Section L.
       destruct (Config.make_item F lvalidate lto_python ldefault lcallable lflag vrun w (path_join pre k0) (N.of_nat (length l)) vs' fs' x) as [[w1 it] o1].
       destruct it as [it|]; [|inversion H; subst; destruct r; reflexivity].
       destruct o1; try (inversion H; subst; reflexivity). destruct c. inversion H; subst. reflexivity.
+    - (* CSetObj *) destruct (fget F k0 fs) as [[f|d1 v1 f1|req vs' fs']|] eqn:Ef; [| | |discriminate].
+      + destruct (lvalidate f cfg_object); inversion H; subst; reflexivity.
+      + inversion H; subst. destruct (store_spec c k0 (VCfg src) k) as [Hs _]. rewrite Hs. reflexivity.
+      + inversion H; subst. reflexivity.
+    - (* CAppendObj *) cbn [mark_effect].
+      destruct (fget F k0 fs) as [[f|d1 v1 f1|req vs' fs']|]; try (inversion H; subst; reflexivity).
+      destruct (dget k0 (c_data c)) as [[v|c0|l]|]; try (inversion H; subst; reflexivity).
+      destruct (obj_item F lvalidate lflag vrun (path_join pre k0) (N.of_nat (length l)) vs' fs' src);
+        destruct c; inversion H; subst; reflexivity.
+    - (* CSetIdxObj *) cbn [mark_effect].
+      destruct (fget F k0 fs) as [[f|d1 v1 f1|req vs' fs']|]; try (inversion H; subst; reflexivity).
+      destruct (dget k0 (c_data c)) as [[v|c0|l]|]; try (inversion H; subst; reflexivity).
+      destruct (obj_item F lvalidate lflag vrun (path_join pre k0) (N.of_nat (length l)) vs' fs' src);
+        try (inversion H; subst; reflexivity).
+      destruct (i <? length l)%nat; destruct c; inversion H; subst; reflexivity.
+    - (* CInsertObj *) cbn [mark_effect].
+      destruct (fget F k0 fs) as [[f|d1 v1 f1|req vs' fs']|]; try (inversion H; subst; reflexivity).
+      destruct (dget k0 (c_data c)) as [[v|c0|l]|]; try (inversion H; subst; reflexivity).
+      destruct (obj_item F lvalidate lflag vrun (path_join pre k0) (N.of_nat (length l)) vs' fs' src);
+        destruct c; inversion H; subst; reflexivity.
+  Qed.
+
+  (* an accepted configuration object: the slot holds that very object (same identity), the key is user-defined,
+     nothing else moves; the object itself is stored as it was handed over *)
+  Theorem set_obj_ok : forall k src w pre c dyn vs fs w' c',
+    Config.apply_cop F lvalidate lto_python ldefault lcallable lflag vrun w pre c dyn vs fs (CSetObj k src) = (w', c', OOk) ->
+    c' = store c k (VCfg src) /\ w' = w /\ exists d' vs' fs', fget F k fs = Some (NSub d' vs' fs').
+  Proof.
+    intros k src w pre c dyn vs fs w' c' H. cbn [Config.apply_cop] in H.
+    destruct (fget F k fs) as [[f|d1 v1 f1|req vs' fs']|].
+    - destruct (lvalidate f cfg_object); inversion H.
+    - inversion H; subst. repeat split. do 3 eexists. reflexivity.
+    - inversion H.
+    - destruct dyn; inversion H.
+  Qed.
+
+  (* the marks after handing over a configuration object: an accepted assignment makes exactly that key user-defined;
+     the list routes, and every refusal, change no mark *)
+  Theorem obj_marks : forall o w pre c vs fs w' c' r,
+    is_obj_op o = true -> declared_target fs o = true ->
+    Config.apply_cop F lvalidate lto_python ldefault lcallable lflag vrun w pre c false vs fs o = (w', c', r) ->
+    forall k, defined c' k = match o, r with CSetObj k' _, OOk => defined c k || str_eqb k k' | _, _ => defined c k end.
+  Proof.
+    intros o w pre c vs fs w' c' r Ho Hd H k.
+    rewrite (apply_cop_marks o w pre c vs fs w' c' r) by (try assumption; destruct o; try discriminate; reflexivity).
+    destruct o; try discriminate; destruct r; reflexivity.
   Qed.
 
   Fixpoint run_marks (ops : list cop) (w : world) (c : cfg) (vs : list N) (fs : list (str * node F)) : list (cop * oc) * cfg :=
@@ -587,6 +677,46 @@ Section L.
     feature_enabled fs d = false -> validate_errs (NSub dyn vs fs) pre (VCfg (Cfg i d df dy)) = [].
   Proof. intros. rewrite validate_errs_unfold, H. reflexivity. Qed.
 
+  (* a configuration object enters a list of configurations (append / item assignment / insert) only if whole-object
+     validation against the item schema found nothing at that moment; it is then an element of the list *)
+  Definition obj_list_op (o : cop) : option (str * cfg) :=
+    match o with
+    | CAppendObj k src | CSetIdxObj k _ src | CInsertObj k _ src => Some (k, src)
+    | _ => None
+    end.
+
+  Lemma in_set_nth_cfg : forall i (x : cfg) l, (i < length l)%nat -> In x (set_nth_cfg i x l).
+  Proof.
+    induction i as [|i IH]; destruct l as [|y l]; cbn [set_nth_cfg length]; intro H; try lia.
+    - left; reflexivity.
+    - right. apply IH. lia.
+  Qed.
+
+  Theorem obj_item_validated : forall o k src w pre c dyn vs fs w' c',
+    obj_list_op o = Some (k, src) ->
+    Config.apply_cop F lvalidate lto_python ldefault lcallable lflag vrun w pre c dyn vs fs o = (w', c', OOk) ->
+    exists req vs' fs' l l',
+      fget F k fs = Some (NCfgList req vs' fs') /\ dget k (c_data c) = Some (VList l)
+      /\ validate_errs (NSub false vs' fs') (path_index (path_join pre k) (N.of_nat (length l))) (VCfg src) = []
+      /\ dget k (c_data c') = Some (VList l') /\ In src l'.
+  Proof.
+    intros o k src w pre c dyn vs fs w' c' Ho H.
+    destruct o; cbn [obj_list_op] in Ho; try discriminate; inversion Ho; subst; clear Ho; cbn [Config.apply_cop] in H;
+      (destruct (fget F k fs) as [[f|d1 v1 f1|req vs' fs']|]; try (inversion H; fail));
+      (destruct (dget k (c_data c)) as [[v|c0|l]|] eqn:Eg; try (inversion H; fail));
+      unfold obj_item, Config.validate_raise in H;
+      (destruct (validate_errs (NSub false vs' fs') (path_index (path_join pre k) (N.of_nat (length l))) (VCfg src)) eqn:Ev;
+         [|inversion H]).
+    - destruct c as [i0 d df dy]. inversion H; subst. exists req, vs', fs', l, (l ++ [src]).
+      split; [reflexivity|]. split; [reflexivity|]. split; [exact Ev|]. split; [apply dget_dset_eq | apply in_or_app; right; left; reflexivity].
+    - destruct (i <? length l)%nat eqn:Ei; [|inversion H]. destruct c as [i0 d df dy]. inversion H; subst.
+      exists req, vs', fs', l, (set_nth_cfg i src l).
+      split; [reflexivity|]. split; [reflexivity|]. split; [exact Ev|]. split; [apply dget_dset_eq | apply in_set_nth_cfg; apply Nat.ltb_lt; exact Ei].
+    - destruct c as [i0 d df dy]. inversion H; subst.
+      exists req, vs', fs', l, (firstn (insert_pos i (length l)) l ++ src :: skipn (insert_pos i (length l)) l).
+      split; [reflexivity|]. split; [reflexivity|]. split; [exact Ev|]. split; [apply dget_dset_eq | apply in_or_app; right; left; reflexivity].
+  Qed.
+
   (* ---------------------------------------------------------------------------------------- *)
   (* sizes, for induction over nested values and schemas                                      *)
   (* ---------------------------------------------------------------------------------------- *)
@@ -662,6 +792,67 @@ Section L.
 
   Lemma nsize_cfglist : forall r v fs, nsize (NCfgList r v fs) = S (fsize fs).
   Proof. intros. cbn [nsize]. f_equal. induction fs as [|[k n] fs IH]; [reflexivity|]. cbn [fsize fold_right snd]. f_equal. exact IH. Qed.
+
+  (* whether validation finds anything does not depend on where the configuration sits: the reference path only labels errors *)
+  Lemma flat_map_nil_iff : forall (A B : Type) (f : A -> list B) (l : list A), flat_map f l = [] <-> (forall x, In x l -> f x = []).
+  Proof.
+    intros A B f. induction l as [|a l IH]; cbn [flat_map]; split; intro H.
+    - intros x [].
+    - reflexivity.
+    - apply app_eq_nil in H. destruct H as [H1 H2]. intros x [<-|Hin]; [exact H1 | apply IH; assumption].
+    - rewrite (H a (or_introl eq_refl)). cbn [app]. apply IH. intros x Hin. apply H. right; exact Hin.
+  Qed.
+
+  Lemma validate_errs_nil_pre : forall n nd pre pre' v, (nsize nd <= n)%nat -> validate_errs nd pre v = [] -> validate_errs nd pre' v = [].
+  Proof.
+    induction n as [|n IH]; intros nd pre pre' v Hn H.
+    - destruct nd; cbn [nsize] in Hn; lia.
+    - assert (Hsub : forall dyn vs fs pre pre' c, (fsize fs <= n)%nat ->
+                validate_errs (NSub dyn vs fs) pre (VCfg c) = [] -> validate_errs (NSub dyn vs fs) pre' (VCfg c) = []).
+      { clear nd pre pre' v Hn H. intros dyn vs fs pre pre' [i d df dy] Hn H.
+        rewrite validate_errs_unfold in H. rewrite validate_errs_unfold. destruct (feature_enabled fs d); [|reflexivity].
+        apply app_eq_nil in H. destruct H as [Hf Hv].
+        rewrite flat_map_nil_iff in Hf. rewrite flat_map_nil_iff in Hv.
+        assert (Hf' : flat_map (field_errs d pre') fs = []).
+        { apply flat_map_nil_iff. intros [k nd'] Hin. specialize (Hf _ Hin). cbn [field_errs] in *.
+          assert (Hs : (nsize nd' <= n)%nat) by (pose proof (fsize_in _ _ _ Hin); lia).
+          destruct nd' as [f|d1 v1 f1|req v1 f1]; destruct (dget k d) as [[x|c0|l]|]; try reflexivity.
+          - destruct (lvalidate f x); try reflexivity. discriminate.
+          - destruct (validate_errs (NSub d1 v1 f1) (path_join pre k) (VCfg c0)) eqn:E; [|cbn [firstn] in Hf; discriminate].
+            rewrite (IH _ _ (path_join pre' k) _ Hs E). reflexivity.
+          - destruct x; try reflexivity. destruct req; [discriminate | reflexivity].
+          - destruct (req && is_nil l); [discriminate|].
+            destruct (validate_errs (NCfgList req v1 f1) (path_join pre k) (VList l)) eqn:E; [|cbn [firstn] in Hf; discriminate].
+            rewrite (IH _ _ (path_join pre' k) _ Hs E). reflexivity. }
+        assert (Hv' : flat_map (fun n0 => if vrun n0 (leaf_values d) then [] else [EValidation pre']) vs = []).
+        { apply flat_map_nil_iff. intros m Hin. specialize (Hv _ Hin). cbn beta in *.
+          destruct (vrun m (leaf_values d)); [reflexivity | discriminate]. }
+        rewrite Hf', Hv'. reflexivity. }
+      destruct nd as [f|dyn vs fs|req vs fs].
+      + destruct v; reflexivity.
+      + rewrite nsize_sub in Hn. destruct v as [x|c|l]; try reflexivity. eapply Hsub; [lia | exact H].
+      + rewrite nsize_cfglist in Hn. destruct v as [x|c|l]; try reflexivity.
+        rewrite validate_errs_list in H. rewrite validate_errs_list.
+        revert H. generalize 0 at 1. generalize 0. induction l as [|it l IHl]; intros j i H; [reflexivity|].
+        cbn [items_errs] in *. apply app_eq_nil in H. destruct H as [H1 H2].
+        rewrite (Hsub false vs fs _ (path_index pre' j) it ltac:(lia) H1). cbn [app]. eapply IHl; exact H2.
+  Qed.
+  Theorem validation_path_independent : forall nd pre pre' v, validate_errs nd pre v = [] -> validate_errs nd pre' v = [].
+  Proof. intros. eapply validate_errs_nil_pre; [apply le_n | eassumption]. Qed.
+
+  (* C11 for configuration objects offered to a list: once accepted, the object is an element of the list and whole-object
+     validation against the item schema finds nothing, whatever position it is given *)
+  Theorem obj_item_held_valid : forall o k src w pre c dyn vs fs w' c',
+    obj_list_op o = Some (k, src) ->
+    Config.apply_cop F lvalidate lto_python ldefault lcallable lflag vrun w pre c dyn vs fs o = (w', c', OOk) ->
+    exists req vs' fs' l',
+      fget F k fs = Some (NCfgList req vs' fs') /\ dget k (c_data c') = Some (VList l') /\ In src l'
+      /\ forall p, validate_errs (NSub false vs' fs') p (VCfg src) = [].
+  Proof.
+    intros o k src w pre c dyn vs fs w' c' Ho H.
+    destruct (obj_item_validated o k src w pre c dyn vs fs w' c' Ho H) as [req [vs' [fs' [l [l' [Hf [_ [Hv [Hg Hin]]]]]]]]].
+    exists req, vs', fs', l'. repeat split; try assumption. intro p. eapply validation_path_independent; exact Hv.
+  Qed.
 
   Lemma items_errs_in : forall vs fs pre l i e, In e (items_errs vs fs pre l i) ->
     exists j it, In e (validate_errs (NSub false vs fs) (path_index pre j) (VCfg it)).
@@ -835,5 +1026,47 @@ Section L.
     intros x w pre c fs dyn k rl w' c' e f Hf H. rewrite set_value_unfold in H. unfold set_value_body in H. rewrite Hf in H.
     unfold Config.set_leaf in H. destruct (lvalidate f x) eqn:Ev; inversion H; subst.
     apply wrap_plain. intros q Hq; subst; eapply leaf_validate_plain; eauto.
+  Qed.
+
+  (* a rejected configuration object: as an assignment, the library's validation error naming exactly the assigned field
+     (or AttributeError for a key the schema does not declare); as a list item, a validation error naming a path at or below
+     <list path>[len(list)] -- the position the item would have had -- or IndexError for an index outside the list *)
+  Theorem obj_rejection_shape : forall o w pre c dyn vs fs w' c' e,
+    Config.apply_cop F lvalidate lto_python ldefault lcallable lflag vrun w pre c dyn vs fs o = (w', c', OErr e) ->
+    match o with
+    | CSetObj k _ => e = EAttribute \/ e = EValidation (path_join pre k)
+    | CAppendObj k _ | CInsertObj k _ _ =>
+        exists l, dget k (c_data c) = Some (VList l) /\ verr_below (path_index (path_join pre k) (N.of_nat (length l))) e
+    | CSetIdxObj k i _ =>
+        exists l, dget k (c_data c) = Some (VList l) /\
+                  ((e = EIndex /\ (length l <= i)%nat) \/ verr_below (path_index (path_join pre k) (N.of_nat (length l))) e)
+    | _ => True
+    end.
+  Proof.
+    intros o w pre c dyn vs fs w' c' e H. destruct o; try exact I; cbn [Config.apply_cop] in H.
+    - destruct (fget F k fs) as [[f|d1 v1 f1|req vs' fs']|].
+      + destruct (lvalidate f cfg_object) eqn:Ev; inversion H; subst. right.
+        apply wrap_plain. intros q Hq; subst; eapply leaf_validate_plain; eauto.
+      + inversion H.
+      + inversion H; subst. right; reflexivity.
+      + destruct dyn; inversion H; subst. left; reflexivity.
+    - destruct (fget F k fs) as [[f|d1 v1 f1|req vs' fs']|]; try (inversion H; fail).
+      destruct (dget k (c_data c)) as [[v|c0|l]|]; try (inversion H; fail). exists l. split; [reflexivity|].
+      unfold obj_item in H.
+      destruct (validate_raise (NSub false vs' fs') (path_index (path_join pre k) (N.of_nat (length l))) (VCfg src)) eqn:Ev;
+        try (destruct c; inversion H; fail). inversion H; subst. eapply validate_raise_below; eauto.
+    - destruct (fget F k fs) as [[f|d1 v1 f1|req vs' fs']|]; try (inversion H; fail).
+      destruct (dget k (c_data c)) as [[v|c0|l]|]; try (inversion H; fail). exists l. split; [reflexivity|].
+      unfold obj_item in H.
+      destruct (validate_raise (NSub false vs' fs') (path_index (path_join pre k) (N.of_nat (length l))) (VCfg src)) eqn:Ev;
+        try (inversion H; fail).
+      + destruct (i <? length l)%nat eqn:Ei; [destruct c; inversion H|]. inversion H; subst. left. split; [reflexivity|].
+        apply Nat.ltb_ge. exact Ei.
+      + inversion H; subst. right. eapply validate_raise_below; eauto.
+    - destruct (fget F k fs) as [[f|d1 v1 f1|req vs' fs']|]; try (inversion H; fail).
+      destruct (dget k (c_data c)) as [[v|c0|l]|]; try (inversion H; fail). exists l. split; [reflexivity|].
+      unfold obj_item in H.
+      destruct (validate_raise (NSub false vs' fs') (path_index (path_join pre k) (N.of_nat (length l))) (VCfg src)) eqn:Ev;
+        try (destruct c; inversion H; fail). inversion H; subst. eapply validate_raise_below; eauto.
   Qed.
 End L.
